@@ -505,6 +505,9 @@ func RunScenarios(r *ev.Run, scs []*Scenario, perScenario time.Duration) (nondet
 		p := ev.Part{Name: sc.Name, Evaluations: res.Execs, States: res.PointsSeen, Transitions: res.Steps, Outcomes: int64(len(res.Outcomes)),
 			Exhaustive: res.Exhaustive, Blocked: res.Blocked, WallS: time.Since(t0).Seconds(),
 			Bound: fmt.Sprintf("preemptions<=%d deviations<=%d completed (asked %d/%d)", res.PBDone, res.DevDone, sc.PB[ti], sc.Dev[ti])}
+		if sc.FB[ti] < 0 {
+			p.Bound += ", free choices: none (the single default schedule - the scenario probes configuration, not interleavings)"
+		}
 		if sc.FB[ti] > 0 {
 			p.Bound += fmt.Sprintf(", free choices<=%d", sc.FB[ti])
 		}
